@@ -249,6 +249,20 @@ def _is_symbols_of_self(x):
         (x[0] == "field" and x[2] == "symbols" and x[1][:2] == ("var", "self"))
 
 
+def _whitelist_arg(e):
+    """the iterator a SymbolList is built from: with_whitelist(it) | SymbolList::from_iter(it) | it.collect() (into a SymbolList) -
+    the three spellings of the same constructor (with_whitelist and FromIterator are checked on their own); None otherwise"""
+    if not (isinstance(e, tuple) and e and e[0] == "call"):
+        return None
+    if e[1].endswith("SymbolList::with_whitelist") and len(e[2]) == 1:
+        return e[2][0]
+    if e[1].endswith("::from_iter") and "symbol_size::SymbolList" in e[1] and len(e[2]) == 1:
+        return e[2][0]
+    if e[1].endswith("Iterator::collect") and len(e[2]) == 1:
+        return e[2][0]
+    return None
+
+
 def prov_filter(ctx):
     r = "PROV-FILTER"
     f = ctx.facts()
@@ -265,7 +279,7 @@ def prov_filter(ctx):
     def not_dmre(ce, var):
         return ce[0] == "un" and ce[1] == "Not" and ce[2][0] == "call" and ce[2][1] == SS + "::is_dmre" and (var is None or ce[2][2][0][:2] == ("var", var))
     filt = T.sx_calls(e, "Iterator::filter")
-    if e[0] == "call" and e[1].endswith("SymbolList::with_whitelist") and filt:
+    if _whitelist_arg(e) is not None and filt:
         fl = filt[0]
         src = fl[2][0]
         srcs = [x for x in T.sx_walk(src) if x[0] == "const"]
@@ -295,8 +309,8 @@ def prov_filter(ctx):
 
     # with_extended_rectangles(): all of SYMBOL_SIZES
     e, b = _body_sx(f, SL + "::with_extended_rectangles", r)
-    ok = e[0] == "call" and e[1].endswith("SymbolList::with_whitelist") and not T.sx_calls(e, "::filter") \
-        and not T.sx_calls(e, "::take") and not T.sx_calls(e, "::skip") \
+    ok = _whitelist_arg(e) is not None and not T.sx_calls(e, "::filter") \
+        and not T.sx_calls(e, "::take") and not T.sx_calls(e, "::skip") and not T.sx_calls(e, "::step_by") \
         and any(x[0] == "const" and x[1] == "symbol_size::SYMBOL_SIZES" for x in T.sx_walk(e)) \
         and len(T.sx_calls(e, "")) <= 3
     ob("with_extended_rectangles", ok, "with_extended_rectangles() = every entry of SYMBOL_SIZES", b, T.sx_show(e))
@@ -486,16 +500,35 @@ def prov_filter(ctx):
         cn = T.canon(name)
         if cn.startswith("<symbol_size::SymbolList as core::convert::From<") and cn.endswith(">::from"):
             e = T.sx(f.thir[name]["body"], T.let_env(f.thir[name]["body"]))
-            ok = e[0] == "call" and e[1].endswith("SymbolList::with_whitelist") and len(e[2]) == 1
+            a = _whitelist_arg(e)
+            ok = a is not None
             if ok:
-                a = e[2][0]
-                ok = a[:2] == ("var", "other") or (a[0] == "array" and len(a[1]) == 1 and a[1][0][:2] == ("var", "size"))
+                while a[0] == "call" and a[1].endswith("into_iter") and len(a[2]) == 1:
+                    a = a[2][0]
+                pb = f.thir[name]["params"][0].get("pat", {}) if f.thir[name]["params"] else {}
+                pname = pb.get("name", "#").split("#")[0] if pb.get("k") == "Bind" else None
+                ok = (a[0] == "var" and a[1] == pname) or (a[0] == "array" and len(a[1]) == 1 and a[1][0][0] == "var" and a[1][0][1] == pname)
             ob("From:" + ("array" if "[" in cn else "single"), ok, "%s builds the list from exactly its argument" % cn.split("::<impl ")[-1][:60], f.thir[name], T.sx_show(e))
         if cn == "<symbol_size::SymbolList as core::iter::Extend<symbol_size::SymbolSize>>::extend":
             e = T.sx(f.thir[name]["body"], T.let_env(f.thir[name]["body"]))
             sts_ = T.stmts(f.thir[name]["body"], {})
             calls = [x for st in sts_ for ex in T.stmt_exprs(st) for x in T.sx_calls(ex, "::extend")]
-            ok = len(calls) == 1 and _is_symbols_of_self(calls[0][2][0]) and calls[0][2][1][:2] == ("var", "iter")
+            pb = f.thir[name]["params"][1].get("pat", {}) if len(f.thir[name]["params"]) > 1 else {}
+            itn = pb.get("name", "#").split("#")[0] if pb.get("k") == "Bind" else "iter"
+            ok = len(calls) == 1 and _is_symbols_of_self(calls[0][2][0]) and calls[0][2][1][:2] == ("var", itn)
+            if not calls:
+                # `for s in iter { self.symbols.insert(s); }`
+                fl = [st for st in sts_ if st[0] == "for"]
+                if len(fl) == 1 and len(sts_) == 1:
+                    it = fl[0][2]
+                    while it[0] == "call" and it[1].endswith("into_iter") and len(it[2]) == 1:
+                        it = it[2][0]
+                    ev = fl[0][1][0].split("#")[0] if len(fl[0][1]) == 1 else None
+                    body = fl[0][3]
+                    ok = it[:2] == ("var", itn) and len(body) == 1 and body[0][0] in ("expr", "let") and isinstance(body[0][1 if body[0][0] == "expr" else 3], tuple)
+                    if ok:
+                        c0 = body[0][1] if body[0][0] == "expr" else body[0][3]
+                        ok = c0[0] == "call" and c0[1].endswith("BTreeSet::insert") and _is_symbols_of_self(c0[2][0]) and c0[2][1][:2] == ("var", ev)
             ob("Extend", ok, "Extend adds exactly the given iterator to the set", f.thir[name])
     obs += floor(obs, r, 18, "filter wiring obligations")
     return obs
